@@ -16,12 +16,12 @@ CHECKS = {
 CHECKS.update({
     "C01": ("model_checking", "E2+E1",
             "explicit-state BFS over subscribe/unsubscribe histories on the real Trie (state = canonical trie dump) + preemption-bounded exhaustive schedule exploration with a brute-force linearizability oracle",
-            "Every history of subscribe/unsubscribe to depth 3 (quick) / 4 (thorough) over 12-16 filters x 3 subscribers in both matcher modes is replayed on a fresh real Trie; in every reached state 7 channels are looked up (with and without an exclusion filter) and compared with a string-level matcher incl. share groups; Count() and 'index empty again' are checked. Four 3-thread scenarios are explored exhaustively up to 2/3 preemptions; every execution's call/return history must be linearizable w.r.t. the reference.",
+            "Every history of subscribe/unsubscribe to depth 3 (quick) / 4 (thorough) over 12-16 filters x 3 subscribers in both matcher modes is replayed on a fresh real Trie; in every reached state 7 channels are looked up (with and without an exclusion filter) and compared with a string-level matcher incl. share groups; Count() and 'index empty again' are checked. Six scenarios of 2-3 threads (incl. two concurrent lookups that each meet a share group) are explored exhaustively up to 2/3 preemptions; every execution's call/return history must be linearizable w.r.t. the reference.",
             "murmur32 collisions outside the alphabet; sequentially consistent statement-level interleavings; share picks with >1 member only in the sequential part (Go map iteration is not controllable).",
             "DESIGN.md §4 C01"),
     "C02": ("model_checking", "E2",
             "explicit-state BFS over client request histories against a real broker.Service (in-memory connections, independent MQTT client codec), states deduplicated by trie dump + per-connection counters + reference model",
-            "Every sequence of subscribe/unsubscribe/link/failing requests by two clients to depth 3 (quick) / 4 (thorough) over xor-colliding, repeated and wildcard filters is replayed on a real broker; in every reached state every client publishes to 9 channels with and without me=0 and through links, and each client's inbox is compared with the reference (exactly-once, topic, payload); failing requests must answer emitter/error/ and change nothing.",
+            "Every sequence of subscribe/unsubscribe/link/failing requests by two clients to depth 3 (quick) / 4 (thorough) over xor-colliding, repeated and wildcard filters is replayed on a real broker; in every reached state every client publishes to 9 channels with and without me=0 and through links, and each client's inbox is compared with the reference (exactly-once, topic, payload); failing requests must answer emitter/error/ and change nothing. Further searches: one connection juggling three xor-colliding filters (depth 7/8), and a fault variant in which a third subscriber's socket fails every write while the two healthy clients must be served as before.",
             "clients act one acknowledged request at a time (histories, not schedules); single broker; level names outside the alphabet are not explored.",
             "DESIGN.md §4 C02"),
     "C07": ("model_checking", "E2",
@@ -31,7 +31,7 @@ CHECKS.update({
             "DESIGN.md §4 C07"),
     "C08": ("fault_enumeration", "E4",
             "exhaustive enumeration of cut points (every packet boundary x 6 endings, every byte offset inside the last packet) of every generated client session against a real broker with a watching client",
-            "Every session of <=2 (quick) / <=3 (thorough) requests over 10 request kinds (xor-colliding filters, presence-change and link subscriptions) x 3 last-will variants is cut after its last packet with each of 6 endings (DISCONNECT, abrupt close, EOF-with-data, malformed, bad type, oversized) and at byte offsets inside its last packet; after the broker closes the socket the subscription index, connection counter, per-connection counters, the last-will deliveries and the presence notifications seen by a second client are compared with the reference.",
+            "Every session of <=2 (quick) / <=3 (thorough) requests over 10 request kinds (xor-colliding filters, presence-change and link subscriptions) x 3 last-will variants is cut after its last packet with each of 6 endings (DISCONNECT, abrupt close, EOF-with-data, malformed, bad type, oversized) and at byte offsets inside its last packet; after the broker closes the socket the subscription index, connection counter, per-connection counters, the last-will deliveries and the presence notifications seen by a second client are compared with the reference. Burst family: a connection holding 1..150 (thorough: ..1000) subscriptions below a watched channel ends while the watcher's socket is stalled or not; every subscription must be gone and the watcher told about each once it reads again.",
             "in-memory transport attached through the real accept path; 'internal failure' = decoder error/panic only.",
             "DESIGN.md §4 C08"),
     "C16": ("exploration", "E3",
@@ -109,7 +109,7 @@ CHECKS.update({
             "DESIGN.md §4 C04"),
     "C05": ("model_checking", "E2",
             "explicit-state BFS over client activity x gossip transport schedules on 2-3 real brokers wired through real mesh gossipSender objects (one per directed link), states deduplicated by a canonical dump of every broker's replicated state, peer counters, routing entries and queued payloads; quiescence closure + routing oracle in every state",
-            "Events: subscribe/unsubscribe/disconnect of a client on any broker (budget 3-4), delivery of one queued payload on one link (gossip bucket first, explorer chooses the broadcast source), periodic full-state gossip, link down/up, peer garbage collection. In every reached state all links are brought up and full-state rounds are run until nothing changes; then every broker must hold a routing entry for a peer iff that peer has a live local subscriber, and a publish on every broker must reach every subscriber exactly once.",
+            "Events: subscribe/unsubscribe/disconnect of a client on any broker (budget 3-4), delivery of one queued payload on one link (gossip bucket first, explorer chooses the broadcast source), periodic full-state gossip, link down/up, peer garbage collection. In every reached state all links are brought up and full-state rounds are run until nothing changes; then every broker must hold a routing entry for a peer iff that peer has a live local subscriber, and a publish on every broker must reach every subscriber exactly once. Configurations: quick = 2 brokers on one channel + 2 brokers with two xor-colliding channels on one side (4 client operations); thorough adds 4 client operations, faults, 3 brokers (mesh and line) and two clients per broker.",
             "deliveries atomic per broker; mesh routing transcribed for <= 3 brokers; one logical clock; peer liveness timeouts never elapse.",
             "DESIGN.md §4 C05"),
 })
